@@ -9,7 +9,35 @@ from . import convlib as L
 
 def inc_grid(rng, n, kind=None, start0=None):
     """strictly increasing grid"""
-    kind = kind or rng.choice(["uniform0", "uniform", "jitter", "nonuniform"])
+    kind = kind or rng.choice(["uniform0", "uniform", "jitter", "nonuniform", "firstmean", "stitched", "intgrid"])
+    if kind == "firstmean" and n < 4:
+        kind = "nonuniform"
+    if kind == "firstmean":      # non-uniform, but the first interval equals the mean interval
+        x0 = rng.choice([0.0, rng.logu(0.01, 2.0)])
+        h = rng.logu(0.01, 0.5)
+        steps = [h] + [h * rng.uniform(0.3, 1.7) for _ in range(n - 2)]
+        corr = h * (n - 1) - sum(steps)
+        steps[-1] += corr
+        if steps[-1] <= 0.05 * h:
+            steps = [h, 0.5 * h, 1.5 * h] + [h] * (n - 4)
+        g = [x0]
+        for st in steps:
+            g.append(g[-1] + st)
+        return kind, g[:n]
+    if kind == "stitched":       # two resolutions joined (fine bins then coarse bins)
+        x0 = rng.choice([0.0, rng.logu(0.01, 1.0)])
+        h1, h2 = rng.logu(0.01, 0.1), rng.logu(0.1, 0.6)
+        k = max(1, n // 2)
+        g = [x0 + i * h1 for i in range(k)]
+        g += [g[-1] + (i + 1) * h2 for i in range(n - k)]
+        return kind, g
+    if kind == "intgrid":        # integer-valued abscissae (also passed as an integer array)
+        x0 = rng.choice([0, 1, 2])
+        g, x = [], x0
+        for _ in range(n):
+            g.append(float(x))
+            x += rng.choice([1, 1, 2, 3])
+        return kind, g
     if kind == "uniform0":
         h = rng.logu(0.01, 0.5)
         g = [i * h for i in range(n)]
@@ -31,8 +59,11 @@ def inc_grid(rng, n, kind=None, start0=None):
 
 
 def data(rng, x, kind=None):
-    kind = kind or rng.choice(["smooth", "random", "wide", "ints", "spike"])
+    kind = kind or rng.choice(["smooth", "random", "wide", "ints", "spike", "tiny"])
     n = len(x)
+    if kind == "tiny":           # the same signal in other units: amplitudes far below 1e-8
+        amp = rng.choice([3e-9, 1e-10, 2.5e-13])
+        return kind, [amp * rng.uniform(-2, 2) for _ in range(n)]
     if kind == "smooth":
         a, b, c = rng.uniform(0.2, 3), rng.uniform(0.05, 2), rng.uniform(-2, 2)
         return kind, [c * xi * math.exp(-b * xi * xi / (1 + x[-1])) + math.sin(a * xi) for xi in x]
@@ -48,7 +79,9 @@ def data(rng, x, kind=None):
 
 
 def out_grid(rng, m, kind=None):
-    kind = kind or rng.choice(["uniform0", "uniform", "mixed"])
+    kind = kind or rng.choice(["uniform0", "uniform", "mixed", "intout"])
+    if kind == "intout":
+        return kind, [float(i + rng.choice([0, 1])) for i in range(m)] if m > 1 else [float(rng.randint(0, 5))]
     if kind == "uniform0":
         h = rng.logu(0.01, 1.0)
         return kind, [i * h for i in range(m)]
@@ -106,10 +139,18 @@ def gen_ft_case(rng, tier, lorch=False, omitted=False, channel=2, win=None, dy_k
     uk, dy = L.uncert(rng, n)
     if dy_kinds and uk not in dy_kinds:
         uk, dy = "pos", [rng.logu(1e-4, 1.0) for _ in range(n)]
+    idt = [gk == "intgrid" and rng.random() < 0.7, dk == "ints" and rng.random() < 0.6, ok == "intout" and rng.random() < 0.7]
     return {"xin": xin, "yin": yin, "xout": xout, "xmin": xmin, "xmax": xmax, "dy": dy,
-            "lorch": bool(lorch), "omitted": bool(omitted), "channel": channel,
-            "desc": {"n": n, "m": m, "grid": gk, "data": dk, "out": ok, "window": wk, "dy": uk,
+            "lorch": bool(lorch), "omitted": bool(omitted), "channel": channel, "int_dtype": idt,
+            "desc": {"n": n, "m": m, "grid": gk, "int_arrays": "".join("1" if t else "0" for t in idt), "data": dk, "out": ok, "window": wk, "dy": uk,
                      "zero_on_grid": 0.0 in xin, "lorch": bool(lorch), "omitted": bool(omitted)}}
+
+
+def as_arr(vals, want_int):
+    """integer-typed array only when asked for and every value is integral"""
+    if want_int and all(float(v).is_integer() for v in vals):
+        return np.array(vals, dtype=np.int64)
+    return np.array(vals, dtype=float)
 
 
 def call_ft(pystog, case, xin=None, yin=None, xout=None, dy="same", **over):
@@ -122,9 +163,10 @@ def call_ft(pystog, case, xin=None, yin=None, xout=None, dy="same", **over):
     if omitted or case.get("pass_flags"):
         kw["OmittedXrangeCorrection"] = bool(omitted)
     d = case["dy"] if isinstance(dy, str) else dy
-    xi = np.array(case["xin"] if xin is None else xin, float)
-    yi = np.array(case["yin"] if yin is None else yin, float)
-    xo = np.array(case["xout"] if xout is None else xout, float)
+    idt = case.get("int_dtype", [False, False, False])
+    xi = as_arr(case["xin"] if xin is None else xin, idt[0] and xin is None)
+    yi = as_arr(case["yin"] if yin is None else yin, idt[1] and yin is None)
+    xo = as_arr(case["xout"] if xout is None else xout, idt[2] and xout is None)
     xo_, yo, eo = tr.fourier_transform(xi, yi, xo, xmin=over.get("xmin", case["xmin"]), xmax=over.get("xmax", case["xmax"]),
                                        dy_in=None if d is None else np.array(d, float), **kw)
     return np.asarray(xo_, float), np.asarray(yo, float), np.asarray(eo, float)
@@ -185,9 +227,13 @@ def gen_named_case(rng, tier, direction, X, Y, lorch=False, omitted=False, chann
     uk, dy = L.uncert(rng, n)
     mat = L.material(rng)
     names_in, names_out = (L.RN, L.GN) if direction == 0 else (L.GN, L.RN)
+    idt = [gk == "intgrid" and rng.random() < 0.7, dk == "ints" and not (base and True) and rng.random() < 0.6, ok == "intout" and rng.random() < 0.7]
+    if idt[1]:
+        yin = [float(round(v)) for v in yin]
     return {"dir": direction, "X": X, "Y": Y, "xin": xin, "yin": yin, "xout": xout, "dy": dy, "mat": mat,
-            "lorch": bool(lorch), "omitted": bool(omitted), "channel": channel,
+            "lorch": bool(lorch), "omitted": bool(omitted), "channel": channel, "int_dtype": idt,
             "desc": {"method": "%s_to_%s" % (names_in[X], names_out[Y]), "n": n, "m": m, "grid": gk, "data": dk,
+                     "int_arrays": "".join("1" if t else "0" for t in idt),
                      "out": ok, "dy": uk, "lorch": bool(lorch), "omitted": bool(omitted), "zero_on_grid": 0.0 in xin}}
 
 
@@ -207,8 +253,9 @@ def call_named(pystog, case, yin=None, dy="same", **over):
     names_in, names_out = (L.RN, L.GN) if case["dir"] == 0 else (L.GN, L.RN)
     f = getattr(tr, "%s_to_%s" % (names_in[case["X"]], names_out[case["Y"]]))
     d = case["dy"] if isinstance(dy, str) else dy
-    xo, yo, eo = f(np.array(case["xin"], float), np.array(case["yin"] if yin is None else yin, float),
-                   np.array(case["xout"], float), None if d is None else np.array(d, float), **named_kwargs(case, **over))
+    idt = case.get("int_dtype", [False, False, False])
+    xo, yo, eo = f(as_arr(case["xin"], idt[0]), as_arr(case["yin"] if yin is None else yin, idt[1] and yin is None),
+                   as_arr(case["xout"], idt[2]), None if d is None else np.array(d, float), **named_kwargs(case, **over))
     return np.asarray(xo, float), np.asarray(yo, float), np.asarray(eo, float)
 
 
